@@ -238,7 +238,7 @@ fn loom_models(quick: bool) -> Vec<(&'static str, Option<usize>)> {
 
 fn run_loom(model: &str, bound: Option<usize>) -> Result<String, String> {
     let bin = std::env::var("RQ_BIN_LOOM").unwrap_or_else(|_| machinery_failure("RQ_BIN_LOOM not set (run through ./check)"));
-    let mut cmd = std::process::Command::new(&bin);
+    let mut cmd = crate::common::child_command(&bin);
     cmd.arg(model);
     if let Some(b) = bound {
         cmd.arg(b.to_string());
@@ -258,8 +258,18 @@ fn run_loom(model: &str, bound: Option<usize>) -> Result<String, String> {
             Some(d) => Err(d.split("VIOLATION-DETAIL:").nth(1).unwrap_or(&d).trim().to_string()),
             None => {
                 let tail: String = se.lines().rev().take(12).collect::<Vec<_>>().into_iter().rev().collect::<Vec<_>>().join(" | ");
-                if tail.contains("deadlock") || tail.contains("panicked") {
-                    Err(format!("loom reported a failing execution: {}", tail))
+                // the message of the FIRST panic (the line after "... panicked at <location>:"); it carries no
+                // process ids or addresses, so the report is the same in every run
+                let lines: Vec<&str> = se.lines().collect();
+                let first = lines.iter().position(|l| l.contains("panicked at")).and_then(|i| lines.get(i + 1)).map(|l| l.trim().to_string());
+                if let Some(msg) = first {
+                    if msg.starts_with("deadlock") {
+                        Err(format!("loom found an interleaving in which the threads block for ever (a thread waiting for a plan is never woken, or a lock cycle): {}", msg))
+                    } else {
+                        Err(format!("loom reported a failing execution: {}", msg))
+                    }
+                } else if tail.contains("deadlock") || tail.contains("panicked") {
+                    Err("loom reported a failing execution".to_string())
                 } else {
                     machinery_failure(&format!("loom model {} crashed: status {:?}: {}", model, out.status, tail))
                 }
